@@ -196,11 +196,11 @@ impl Monitor for C17 {
         let mut rng = Rng::for_case("C17", self.seed, idx);
         let mut xs = self.boot.clone();
         let mut log: Vec<String> = vec![];
-        let scenario = *rng.pick(&["top", "loop", "if", "called-word-same-source", "called-word-earlier-source", "deep-call-chain", "meta-block", "word-in-meta", "included-file", "after-include", "injected-text", "identical-sources", "second-error", "definition-body-build-error"]);
+        let scenario = *rng.pick(&["top", "loop", "if", "called-word-same-source", "called-word-earlier-source", "deep-call-chain", "meta-block", "word-in-meta", "included-file", "after-include", "injected-text", "identical-sources", "second-error", "definition-body-build-error", "file-included-twice", "resumed-run"]);
         let runtime_ok = !matches!(scenario, "definition-body-build-error");
-        let runtime = runtime_ok && rng.chance(2, 3);
+        let runtime = runtime_ok && (rng.chance(2, 3) || matches!(scenario, "file-included-twice" | "resumed-run"));
         let (mut pre, mut tok, mut post, mut class) = failing(&mut rng, runtime);
-        let wrapped = !matches!(scenario, "top" | "after-include" | "injected-text" | "identical-sources" | "second-error" | "included-file");
+        let wrapped = !matches!(scenario, "top" | "after-include" | "injected-text" | "identical-sources" | "second-error" | "included-file" | "resumed-run");
         while (wrapped && matches!(tok, ";" | "then" | "loop" | "endcase")) || (scenario == "loop" && tok == "I") {
             // the wrapper of this scenario would balance such a closer: pick another failing token
             let f = failing(&mut rng, runtime);
@@ -338,6 +338,74 @@ impl Monitor for C17 {
                     let (off, t) = s.planted.clone().unwrap();
                     Expect { source_name: name, text: s.text.clone(), offset: off, token: t, class }
                 };
+            }
+            "file-included-twice" => {
+                // a file is loaded, a word keeps a reference to what it defined, the file is loaded again (as it is, or
+                // edited in between); the failure is in the code of the first load
+                let path = format!("{}/twice{}.xeh", self.scratch, idx % 7);
+                let mut f = Src::default();
+                let nf = rng.below(3);
+                filler(&mut rng, &mut f, nf);
+                f.push(&format!(": inc-w{} {}", idx % 100, pre));
+                f.plant(tok);
+                f.push(post);
+                f.push(" ;");
+                f.push(rng.pick_str(SEPS));
+                if std::fs::write(&path, &f.text).is_err() {
+                    obs.count("setup_failed");
+                    return;
+                }
+                let first = format!("include \"{}\"{}: keeper{} inc-w{} ;", path, sep, idx % 100, idx % 100);
+                if !matches!(catch(|| xs.eval(&first)), Ok(Ok(()))) {
+                    obs.count("setup_failed");
+                    return;
+                }
+                let edited = rng.flip();
+                if edited {
+                    let mut g = Src::default();
+                    filler(&mut rng, &mut g, 1 + nf);
+                    g.push(&format!("\n: inc-w{} 1 drop ;\n", idx % 100));
+                    if std::fs::write(&path, &g.text).is_err() {
+                        obs.count("setup_failed");
+                        return;
+                    }
+                    obs.count("file_included_twice:edited_in_between");
+                }
+                let second = format!("include \"{}\"", path);
+                if !matches!(catch(|| xs.eval(&second)), Ok(Ok(()))) {
+                    obs.count("setup_failed");
+                    return;
+                }
+                s.push(&format!("keeper{}", idx % 100));
+                log.push(format!("{}\n[file {} at the first load]\n{}\n{}  {}\n{}", first, path, f.text, second, if edited { "(file edited in between)" } else { "(same file)" }, s.text));
+                res = catch(|| xs.eval(&s.text));
+                let (off, t) = f.planted.clone().unwrap();
+                ex = Expect { source_name: path.clone(), text: f.text.clone(), offset: off, token: t, class };
+            }
+            "resumed-run" => {
+                // debugger style: the program stops with an underflow, the host repairs the stack and calls run() again;
+                // the second failure is reported with its own location
+                let (w, need) = *rng.pick(&[("+", 2usize), ("drop", 1), ("swap drop drop", 2)]);
+                s.push(w);
+                s.push(sep);
+                filler(&mut rng, &mut s, 1);
+                s.push(pre);
+                s.plant(tok);
+                s.push(post);
+                let name = format!("<buffer#{}>", nsrc(&xs));
+                log.push(format!("{}\n(after the underflow: {} value(s) pushed, run() again)", s.text, need));
+                let by_eval = rng.flip();
+                let first = catch(|| if by_eval { xs.eval(&s.text) } else { xs.compile(&s.text).and_then(|_| xs.run()) });
+                if !matches!(&first, Ok(Err(e)) if err_class(e) == "underflow") {
+                    obs.count("setup_failed");
+                    return;
+                }
+                for i in 0..need {
+                    let _ = xs.push_data(Cell::Int(i as i128));
+                }
+                res = catch(|| xs.run());
+                let (off, t) = s.planted.clone().unwrap();
+                ex = Expect { source_name: name, text: s.text.clone(), offset: off, token: t, class };
             }
             "injected-text" => {
                 // #( "text" ~) makes the text a source of its own; the failure is inside it or right after it
